@@ -113,8 +113,14 @@ def mk_event(tname, v, extra=None):
 
     cls = E.BY_NAME[tname]
     pay = dict(extra or {})
-    pay["uid"] = REC.new_uid()
-    pay["v"] = v
+    if pay.pop("_plain", False):
+        # byte-identical events (no per-emission id): what a workflow sending the same value twice produces
+        pay["uid"] = pay.get("fixed_uid", 7)
+        pay["v"] = pay.pop("fixed_v", "same")
+        pay.pop("fixed_uid", None)
+    else:
+        pay["uid"] = REC.new_uid()
+        pay["v"] = v
     if tname == "StopEvent" or issubclass(cls, E.StopEvent):
         res = pay.pop("result", None)
         return cls(result=res, **pay)
